@@ -1,4 +1,3 @@
-import Secp.Proofs.WrapperTiesN
 import Secp.Proofs.ScalarLawful
 import Secp.Hand.Scalar
 /-!
